@@ -130,8 +130,14 @@ type poolItem struct {
 	stamp uint32
 }
 
+// register must not synchronise: an atomic here would order every Get/Put of all callers with each
+// other in the race detector's eyes and hide races of the code under test. Plain access in norace code;
+// registering twice is harmless.
+//
+//go:norace
 func (p *Pool) register() {
-	if atomic.CompareAndSwapUint32(&p.reg, 0, 1) {
+	if p.reg == 0 {
+		p.reg = 1
 		sim.RegisterPool(p)
 	}
 }
